@@ -60,6 +60,9 @@ func genC15(seed uint64, idx int, tier string) interface{} {
 	}
 	ir := r.Fork(2)
 	switch {
+	case pl.CLI != "" && r.Bool(0.12): // the blank / nearly blank corner of the tools' plumbing
+		pl.Input = []byte(r.Pick([]string{"", " ", "\r", "\r\n", "\n\n", "\t \r", "\u00a0", "\u00a0\r", "\r\u0085\n", "\u2028\r\n ", "\v\r", "\r\n\u00a0\r",
+			"\u3000\r\u3000", " x ", "\r\nx", "\ufeff", "\ufeff\r\n", "\x00", "\r\x00"}))
 	case pl.CLI != "" && r.Bool(0.25): // more than one pipe buffer (64 KiB) of stdin
 		var big []byte
 		for target := r.Range(70000, 200000); len(big) < target; {
@@ -70,6 +73,8 @@ func genC15(seed uint64, idx int, tier string) interface{} {
 		pl.Input = GenLongInput(ir, v)
 	case r.Bool(0.012):
 		pl.Input = GenGiantToken(ir, v)
+	case r.Bool(0.2):
+		pl.Input = GenTargetedInput(ir, pl.Recipe, fresh, r.Range(2, 10))
 	case r.Bool(0.5):
 		pl.Input = GenInput(ir, v, 4)
 	default:
